@@ -49,6 +49,10 @@ def block_configs(max_lineages):
     return out
 
 
+def points_plain(ctx):
+    return [p for p in points(ctx) if p[0] != 'sequence']
+
+
 def points(ctx):
     pts = [('kingman',)]
     alphas = [1.03125, 1.125, 1.5, 1.875, 1.999] if ctx.quick else [1 + i / 32 for i in range(1, 32)] + [1.999, 1.9999]
@@ -60,12 +64,41 @@ def points(ctx):
         pts.append(('dirac', p, c, True))
     pts.append(('beta', 1.5, False))
     pts.append(('dirac', 0.5, 2.0, False))
+    # all of the above one after the other in ONE process (the items above run in separate worker processes): the rates of a
+    # model object must not depend on which other models were constructed or evaluated before it
+    pts.append(('sequence', len(pts), ctx.seed))
+    pts.append(('sequence', len(pts), ctx.seed + 1))
     return pts
+
+
+def sequence(ctx, item):
+    pg = C.import_phasegen()
+    rng = random.Random(f'c14-seq-{item[2]}')
+    pts = [p for p in points_plain(ctx)]
+    rng.shuffle(pts)
+    ctx.case(dict(model=item, order=pts), repr(item))
+    ctx.count('sequence')
+    for model in pts:
+        m = conv.make_model(pg, model)
+        bmax = rng.choice([4, 6, 9])           # different models are asked for different ranges of (b, k)
+        for b in range(2, bmax + 1):
+            for k in range(2, b + 1):
+                if model[0] == 'beta' and model[1] == 1.0:
+                    continue
+                real = float(m._get_rate(b=b, k=k))
+                want = math.comb(b, k) * spec.lam(model, b, k)
+                if not C.close(want, real, 1e-8, 1e-300):
+                    ctx.violation(f'rate-after-other-models:{model[0]}', model=model, b=b, k=k, expected=want, observed=real,
+                                  evaluated_before=pts[:pts.index(model)],
+                                  oracle='C(b,k) * integral against the Lambda measure; same process evaluated the listed models first')
+                    return
 
 
 def one(ctx, model):
     pg = C.import_phasegen()
     model = tuple(model)
+    if model[0] == 'sequence':
+        return sequence(ctx, model)
     drv = C.driver()
     m = conv.make_model(pg, model)
     ms = conv.model_spec(model)
@@ -178,4 +211,20 @@ def run(ctx):
 
 
 def replay(ctx, payload):
+    if str(payload.get('signature', '')).startswith('rate-after-other-models'):
+        pg = C.import_phasegen()
+        model = tuple(payload['model'])
+        ctx.case(dict(model=model), 'replay')
+        for prev in payload.get('evaluated_before', []):
+            pm = conv.make_model(pg, tuple(prev))
+            for b in range(2, 10):
+                for k in range(2, b + 1):
+                    pm._get_rate(b=b, k=k)
+        m = conv.make_model(pg, model)
+        b, k = int(payload['b']), int(payload['k'])
+        real, want = float(m._get_rate(b=b, k=k)), math.comb(b, k) * spec.lam(model, b, k)
+        if not C.close(want, real, 1e-8, 1e-300):
+            ctx.violation(payload['signature'], model=model, b=b, k=k, expected=want, observed=real,
+                          evaluated_before=payload.get('evaluated_before', []))
+        return
     one(ctx, tuple(payload['model']))
